@@ -15,6 +15,9 @@ import CfavmlModel.Gen.Kernels
 import CfavmlModel.Hand.ThreadPool
 import CfavmlModel.Hand.AlignedBuffer
 import CfavmlModel.Hand.TransposeGlue
+import CfavmlModel.Spec.Wrappers
+import CfavmlModel.Spec.Dispatch
+import CfavmlModel.Gen.Tables
 
 namespace Cfavml.Driver
 
@@ -212,12 +215,82 @@ def decodeEnv (t : String) : Option (Option String) :=
 def parseArgs (w n : Nat) (ts : List String) : Option (List (Arg w n)) :=
   ts.foldr (fun t acc => do let a ← parseArg w n t; let r ← acc; pure (a :: r)) (some [])
 
-def handle (E : Env) (line : String) : Env × String :=
+
+/-! ### the safe API, interpreted from the regenerated tables
+
+`safe <xany name> <c|a> <DIMS> <mask> <args…>`: the wrapper arm extracted from the `export_safe_*!` macro (its `assert_eq!`
+list, its slots), the `dispatch!` candidates extracted from dispatch.rs, the routine the invocation binds to the selected
+slot, and the kernel / register that routine's name stands for (the export tables bind exactly those: C11) — then the
+generated kernel on the generated register. The harness calls the real safe function under the same forced feature mask. -/
+
+open Tables Spec in
+def tyName : ElemTy → String
+  | .f32 => "f32" | .f64 => "f64" | .i8 => "i8" | .i16 => "i16" | .i32 => "i32" | .i64 => "i64"
+  | .u8 => "u8" | .u16 => "u16" | .u32 => "u32" | .u64 => "u64" | .T => "T"
+open Tables Spec in
+def regNameStr : RegName → String
+  | .Fallback => "Fallback" | .Avx2 => "Avx2" | .Avx2Fma => "Avx2Fma" | .Avx512 => "Avx512" | .Neon => "Neon"
+open Tables Spec in
+def kernelStr : Kernel → String
+  | .generic_dot_product => "generic_dot_product" | .generic_cosine => "generic_cosine" | .generic_euclidean => "generic_euclidean"
+  | .generic_squared_norm => "generic_squared_norm" | .generic_sum => "generic_sum"
+  | .generic_max_horizontal => "generic_max_horizontal" | .generic_min_horizontal => "generic_min_horizontal"
+  | .generic_max_vertical => "generic_max_vertical" | .generic_min_vertical => "generic_min_vertical"
+  | .generic_max_value => "generic_max_value" | .generic_min_value => "generic_min_value"
+  | .generic_add_value => "generic_add_value" | .generic_sub_value => "generic_sub_value"
+  | .generic_mul_value => "generic_mul_value" | .generic_div_value => "generic_div_value"
+  | .generic_add_vector => "generic_add_vector" | .generic_sub_vector => "generic_sub_vector"
+  | .generic_mul_vector => "generic_mul_vector" | .generic_div_vector => "generic_div_vector"
+
+open Tables Spec in
+/-- the (register, kernel) a routine name stands for -/
+def decodeRoutine (ty : ElemTy) (form : Form) (toks : List Tok) : Option (RegName × Kernel) :=
+  ([RegName.Fallback, .Avx2, .Avx2Fma, .Avx512, .Neon].flatMap fun reg =>
+    allKernels.filterMap fun op => if routineName ty form reg op == some toks then some (reg, op) else none).head?
+
+/-- number of elements of a `m:` argument -/
+def memLen (tok : String) : Nat :=
+  let body := (tok.drop 2).toString
+  if body == "-" || body == "" then 0 else (body.splitOn ",").length
+
+open Tables Spec in
+/-- which kern-level request the safe call amounts to, or `none` for a panic of the wrapper -/
+def safeRequest (name : String) (isConst : Bool) (D : Nat) (mask : Nat) (nightly : Bool) (rest : List String) :
+    Except String (Option String) := do
+  let some r := safeRows.find? (fun r => r.anyNameStr == name) | throw "bad-request unknown safe function"
+  let form : Form := if isConst then .xconst else .xany
+  let some arm := safeArms.find? (fun a => a.macro_ == r.macro_ && a.form == form) | throw "bad-request no such arm"
+  if arm.params.length != rest.length then throw "bad-request argument count"
+  let lensL : List (Param × Nat) := (arm.params.zip rest).map (fun (p, t) => (p.1, memLen t))
+  let lens : Param → Nat := fun p => ((lensL.find? (fun q => q.1 == p)).map (·.2)).getD 0
+  if !assertsPass lens D arm.asserts then return none
+  let b : Build := { features := [.std] ++ (if nightly then [.nightly] else []), arch := .x86_64, targetFeatures := [], flags := [.cfavml_verif] }
+  let av : Avail := ⟨mask % 2 == 1, (mask / 2) % 2 == 1, (mask / 4) % 2 == 1, (mask / 8) % 2 == 1⟩
+  let supplied : Slot → Bool := fun s => arm.slots.any (fun x => x.label == s)
+  let slot := selectedBy dispatchCandidates dispatchFallbackLabel b supplied av
+  let some sl := arm.slots.find? (fun x => x.label == slot) | throw "bad-request selected slot not in the arm"
+  let some toks := lookupBinding r.bindings sl.fnVarSlot sl.fnVarForm | throw "bad-request no binding for the slot"
+  let some (reg, op) := decodeRoutine r.ty sl.fnVarForm toks | throw "bad-request routine name not decodable"
+  -- arguments in the order the slot hands them on
+  let argOf : Param → String := fun p => (((arm.params.zip rest).find? (fun q => q.1.1 == p)).map (·.2)).getD "m:-"
+  let args := sl.args.map argOf
+  let dims := if sl.passesDims then D else lens .a
+  return some s!"kern {regNameStr reg} {tyName r.ty} {kernelStr op} {toHex dims} {" ".intercalate args}"
+
+partial def handle (E : Env) (line : String) : Env × String :=
   match line.trimAscii.toString.splitOn " " with
   | ["env", d, o, nn, s] => (mkEnv (d == "1") (o == "1") (nn == "1") (s == "1"), "ok")
   -- compile-time target features of the modelled build (`-C target-feature=…`): avx2 fma avx512f avx512bw neon
   | ["tf", a, f, f5, bw, ne] =>
     ({ E with tf_avx2 := a == "1", tf_fma := f == "1", tf_avx512f := f5 == "1", tf_avx512bw := bw == "1", tf_neon := ne == "1" }, "ok")
+  | "safe" :: name :: form :: dims :: mask :: rest =>
+    match parseHex dims, parseHex mask with
+    | some d, some m =>
+      match safeRequest name (form == "c") d m E.feat_nightly rest with
+      | .error e => (E, e)
+      | .ok none => (E, "fault panic")
+      | .ok (some req) => handle E req
+    | _, _ => (E, "bad-request dims/mask")
   | "reg" :: reg :: ty :: method :: rest =>
     match withReg E reg ty (fun {w n} R _ =>
       match parseArgs w n rest with
